@@ -365,6 +365,24 @@ func TestVerifC37Wire(t *testing.T) {
 		t.Fatal(err)
 	}
 
+	// one mocked cluster member set for the SpawnOn placement path
+	clusterMock := mockcluster.NewCluster(t)
+	remotingMock := mocksremote.NewClient(t)
+	msys := MockReplicationTestSystem(clusterMock)
+	msys.remoting = remotingMock
+	defer msys.dispatcher.signalStop()
+	peer := &cluster.Peer{Host: "10.9.9.9", RemotingPort: 9999}
+	var shipErr error
+	shipped := false
+	clusterMock.EXPECT().ActorExists(mock.Anything, mock.Anything).Return(false, nil).Maybe()
+	clusterMock.EXPECT().Members(mock.Anything).Return([]*cluster.Peer{peer}, nil).Maybe()
+	remotingMock.EXPECT().RemoteSpawn(mock.Anything, peer.Host, peer.RemotingPort, mock.Anything).
+		Run(func(ctx context.Context, _ string, _ int, request *remote.SpawnRequest) {
+			shipped = true
+			_, shipErr = sys.remoting.RemoteSpawn(ctx, host, ports[0], request)
+		}).
+		Return(new("goakt://verifC37@10.9.9.9:9999/placed"), nil).Maybe()
+
 	for _, c := range cases {
 		l, d := c37CodecProbe(c)
 		w.put(l)
@@ -401,26 +419,12 @@ func TestVerifC37Wire(t *testing.T) {
 		// (c) SpawnOn with cluster placement: the request SpawnOn builds, shipped by the real client
 		func() {
 			name := base + "-placement"
-			clusterMock := mockcluster.NewCluster(t)
-			remotingMock := mocksremote.NewClient(t)
-			msys := MockReplicationTestSystem(clusterMock)
-			msys.remoting = remotingMock
-			peer := &cluster.Peer{Host: "10.9.9.9", RemotingPort: 9999}
+			peer.Roles = nil
 			if c.HasRole {
 				peer.Roles = []string{c.Role}
 			}
-			clusterMock.EXPECT().ActorExists(mock.Anything, name).Return(false, nil).Maybe()
-			clusterMock.EXPECT().Members(mock.Anything).Return([]*cluster.Peer{peer}, nil).Maybe()
-			var shipErr error
-			shipped := false
-			remotingMock.EXPECT().RemoteSpawn(mock.Anything, peer.Host, peer.RemotingPort, mock.Anything).
-				Run(func(ctx context.Context, _ string, _ int, request *remote.SpawnRequest) {
-					shipped = true
-					_, shipErr = sys.remoting.RemoteSpawn(ctx, host, ports[0], request)
-				}).
-				Return(new("goakt://verifC37@10.9.9.9:9999/"+name), nil).Maybe()
+			shipErr, shipped = nil, false
 			_, err := msys.SpawnOn(ctx, name, &VerifC37Actor{}, append(c37Options(c), WithPlacement(Random))...)
-			msys.dispatcher.stop()
 			if err != nil || shipErr != nil || !shipped {
 				w.put(c37Probe{N: c.N, Path: "placement", Err: fmt.Sprint("spawnOn=", err, " ship=", shipErr, " shipped=", shipped)})
 				return
